@@ -52,8 +52,40 @@ class Canon(ast.NodeTransformer):
         return node
 
     # -- loops --------------------------------------------------------------------------------------------
+    @staticmethod
+    def _has_continue(node):
+        """a `continue` of THIS loop inside the statement (not one of a nested loop or function)"""
+        if isinstance(node, ast.Continue):
+            return True
+        if isinstance(node, (ast.For, ast.While, ast.FunctionDef, ast.AsyncFunctionDef, ast.ClassDef, ast.Lambda)):
+            return False
+        return any(Canon._has_continue(c) for c in ast.iter_child_nodes(node))
+
+    def _elim_continue(self, stmts):
+        """`if c: A; continue` + rest   ==   `if c: A` / `else: rest`   (continue is "skip the rest of the body"): the loop
+        body is rewritten so that no branch statement contains a continue; one inside try / with is left alone."""
+        for i, st in enumerate(stmts):
+            if isinstance(st, ast.Continue):
+                return list(stmts[:i])
+            if isinstance(st, ast.If) and self._has_continue(st):
+                rest = list(stmts[i + 1:])
+                import copy as _copy
+                body = self._elim_continue(list(st.body) + rest)
+                orelse = self._elim_continue(list(st.orelse) + _copy.deepcopy(rest))
+                new = ast.copy_location(ast.If(test=st.test, body=body or [ast.copy_location(ast.Pass(), st)], orelse=orelse), st)
+                return list(stmts[:i]) + [new]
+        return list(stmts)
+
+    def visit_While(self, node):
+        self.generic_visit(node)
+        if any(self._has_continue(x) for x in node.body):
+            node.body = self._elim_continue(node.body) or [ast.copy_location(ast.Pass(), node)]
+        return node
+
     def visit_For(self, node):
         self.generic_visit(node)
+        if any(self._has_continue(x) for x in node.body):
+            node.body = self._elim_continue(node.body) or [ast.copy_location(ast.Pass(), node)]
         # for x in G: yield x   ==   yield from G
         if not node.orelse and len(node.body) == 1 and isinstance(node.body[0], ast.Expr) and isinstance(node.body[0].value, ast.Yield) \
                 and isinstance(node.target, ast.Name) and isinstance(node.body[0].value.value, ast.Name) \
